@@ -38,15 +38,20 @@ import (
 func main() { harness.Main("C11", "exploration", run) }
 
 func run(e *harness.Env) {
-	e.Rule = "full product: pages P in 1..4 x header {none, same, odd/even, different, same+prefix-sharing unique sub-line, numbered} x footer {none, n, Page n, n of N, - n -} " +
-		"x body {unique, repeated at one body position, numeric, numeric 72/80/101 pt from the bottom / top edge, repeated line inside the top / bottom band on one page only}; " +
-		"(A) fragment sets x page height {792, 842} x fragment order {top-down, bottom-up} through Detect+FilterFragments on every page; " +
-		"(B) PDFs x requested pages {all, each single page, each pair} x {ExcludeHeaders, ExcludeFooters, ExcludeHeadersAndFooters} x 8 public result APIs, filtered vs unfiltered result of the same API. " +
-		"distinct = descriptors; non-trivial = documents of >= 2 pages that have a header, a footer or a non-plain body variant"
+	e.Rule = "full product of pages P in 1..4 x header {none, same on all pages, odd/even, different on every page, same + unique sub-line sharing its prefix, 'Section n Overview'} " +
+		"x running page number {none, or style n | Page n | n of N | - n - (thorough: + Page n of N | n/N | p. n | pg n) printed in the bottom or top band} " +
+		"x body {unique, a line repeated at one body position, the running header's text at a body position, numeric, numeric 72/80/101 pt from the bottom or top edge, a repeated line inside the top / bottom band on one page only, " +
+		"the same text inside the bottom band of every page at positions 13 pt apart}; (A) fragment sets x page size {Letter, A4, mixed} x fragment order {top-down, bottom-up} through Detect + FilterFragments on every page (exact attribution by fragment id); " +
+		"(B) PDFs x page size {Letter, mixed} x requested pages {all, each single page, each pair} x {ExcludeHeaders, ExcludeFooters, ExcludeHeadersAndFooters} x {Text, Lines, Paragraphs, ReadingOrder, Blocks, Analyze, Document, ToMarkdown}, " +
+		"filtered vs unfiltered result of the same call (quick prunes (B): edge distance 80 only, top page numbers in 2 styles, no pairs of 4-page documents, single-side modes and mixed sizes on 3 APIs); " +
+		"(C) DOCX/ODT header part x footer part x 11 near-miss/equal body paragraphs x position x mode x {Text, ToMarkdown}, PPTX 1..3 slides x all 16 subsets of {ftr, sldNum, dt, hdr} placeholders x body text equal to footer / slide number x mode x {Text, ToMarkdown}. " +
+		"distinct = descriptors; non-trivial = documents of >= 2 pages with a header, a page number or a non-plain body variant (office: with a header/footer part or placeholder)"
 	e.Assumptions = []string{
-		"internal/gen/pdfw writes one text fragment per logical line at the stated position (Letter page, Helvetica 12 pt)",
-		"margin band = 72 pt, same position = within 5 pt vertically / 10 pt horizontally (documented defaults of layout.HeaderFooterConfig)",
-		"the unfiltered result of each API contains every line of the requested pages as a contiguous token run (checked per case)",
+		"internal/gen/pdfw writes one text fragment per logical line at the stated position (Helvetica 12 pt; Letter 612x792 or A4-high 612x842 pages)",
+		"margin band = 72 pt, same position = within 5 pt vertically / 10 pt horizontally, page-number patterns = the ten documented ones (documented defaults / comments of layout.HeaderFooterConfig and layout.isPageNumberPattern)",
+		"a fragment lies in a band when any part of its box [y, y+size] is closer than 72 pt to that page edge",
+		"the unfiltered result of each API is taken as the baseline; lines an API does not report even without exclusion are not judged",
+		"internal/gen/docxw, odtw, pptxw produce valid packages (header/footer parts referenced from the section / master page; placeholders by p:ph type)",
 	}
 	e.Note("band_pt", fmt.Sprint(bandPt))
 	partA(e)
@@ -553,7 +558,7 @@ func checkPDF(d *ldoc, path string, sub []int, mode string, api apiFn) (sig, det
 	bad := map[string]map[string]bool{}
 	var notes []string
 	removed, keptMay := map[string]bool{}, map[string]bool{}
-	partial := false
+	partial, otherSide := false, false
 	for _, key := range keys {
 		t := strings.Join(key, " ")
 		x := exp[t]
@@ -583,6 +588,9 @@ func checkPDF(d *ldoc, path string, sub []int, mode string, api apiFn) (sig, det
 		}
 		if del > 0 && del <= x.may {
 			removed[x.mayClassOr()] = true
+			if mode == "headers" && x.maySide == "bottom" || mode == "footers" && x.maySide == "top" {
+				otherSide = true // allowed by the statement (marginal + repeated); recorded as an observation only
+			}
 		}
 		if del < x.may {
 			keptMay[x.mayClassOr()] = true
@@ -594,6 +602,9 @@ func checkPDF(d *ldoc, path string, sub []int, mode string, api apiFn) (sig, det
 	kind := "pdf"
 	if partial {
 		kind = "pdf-api-drops-lines-unfiltered"
+	}
+	if otherSide {
+		kind += "(single-side mode also removed the other side)"
 	}
 	return "", "", fmt.Sprintf("%s:removed=%s:removable-kept=%s", kind, joinSorted(removed), joinSorted(keptMay))
 }
